@@ -507,7 +507,8 @@ func c23Ops(keys []string, thorough bool) []c23Op {
 		s, e       string
 		sNil, eNil bool
 	}
-	ranges := []rg{{s: "a", e: "b"}, {s: "ab", e: "\xff"}, {s: "b", eNil: true}, {sNil: true, e: "ab"}, {sNil: true, eNil: true}, {s: "b", e: "a"}}
+	// {s: "a", e: ""}: an EMPTY but non-nil end is an empty range everywhere (only a nil end means "to the last key")
+	ranges := []rg{{s: "a", e: "b"}, {s: "ab", e: "\xff"}, {s: "b", eNil: true}, {sNil: true, e: "ab"}, {s: "a", e: ""}, {sNil: true, eNil: true}, {s: "b", e: "a"}}
 	if thorough {
 		ranges = append(ranges, rg{s: "", e: "b"}, rg{s: "a", e: "ab"}, rg{s: "\xff", eNil: true})
 	}
@@ -530,7 +531,7 @@ func c23Ops(keys []string, thorough bool) []c23Op {
 	for _, k := range keys {
 		ops = append(ops, c23Op{name: fmt.Sprintf("batch.del(%q)", k), kind: "bdel", k: k})
 	}
-	for _, r := range ranges[:4] {
+	for _, r := range ranges[:5] {
 		ops = append(ops, c23Op{name: "batch.delrange(" + rname(r) + ")", kind: "bdelrange", s: r.s, e: r.e, sNil: r.sNil, eNil: r.eNil})
 	}
 	ops = append(ops, c23Op{name: "batch.write", kind: "bwrite"}, c23Op{name: "batch.reset", kind: "breset"}, c23Op{name: "batch.replay", kind: "breplay"})
